@@ -337,6 +337,10 @@ def match_known(v: dict[str, Any], known: list[dict[str, Any]]) -> dict[str, Any
             return e
         if "index" in m and m["index"] == v["index"] and m.get("leg") == v["leg"]:
             return e
+        if "indices" in m:
+            if v["index"] in m["indices"] and m["case"] == v["case"] and m.get("kind") == v["violation"]["kind"] and m.get("leg") == v["leg"]:
+                return e
+            continue
         if "case" in m and m["case"] == v["case"] and m.get("kind") == v["violation"]["kind"] and m.get("leg", v["leg"]) == v["leg"]:
             return e
     return None
